@@ -210,6 +210,15 @@ func init() {
 		evs := collEventSpecs(r, []string{"twin", "ev:commit1", "ev:creopen"}, 1, ed)
 		r.ExploreSpecs(evs)
 		r.RunTaskGroup("one collision group grown to 258 keys at the default limit (3 shapes x 2 slab sizes)", "colldeep", collDeepArgs())
+		// collision groups in every leaf of a map growing to three levels; every present key removed / shrunk from every seed
+		// (thorough tier only: the depth-2 neighbourhoods of these 130-entry seeds cost minutes)
+		if r.Thorough() {
+			cg := TrajSpecs(r.ID, "map-coll-grow", 132, 106, 131, 1, 2, 256, []string{"t", "limM"}, []string{"sem", "struct", "order"})
+			for i := range cg {
+				cg[i].Extra["allkeys"] = 1
+			}
+			r.ExploreSpecs(cg)
+		}
 		// collisions under the DEFAULT digester (keys built to collide on the first level for every seed):
 		// deeper levels come from the pooled BLAKE3 digester
 		r.ExploreSpecs([]Spec{
